@@ -174,7 +174,9 @@ PROPS = {
         'explanation': 'Address/index arithmetic of the debugger\'s view: get_source_statement(a) is Some(ast[a-orig]) exactly for orig <= a < orig+len; '
                        'resolve_symbol_address(name) == table[name]-1; resolve_label == orig + index + offset inside user space (offs_spec); parse binds '
                        'every prefix label to the number of the statement it marks (verif_label_insert: line == current line; lines_ok: ast[i].line == i+1); '
-                       'parse_instr proves the statement text ends at its last operand (tok_end), Span::join covers both spans.',
+                       'parse_instr proves the statement text ends at its last operand (tok_end), Span::join covers both spans; parse as a whole (loop invariant + '
+                       'postcondition stmt_span_ok): every statement of the result carries the span that starts where its own head token starts and '
+                       'ends where the last token consumed for it ends, with no other statement\'s head in between.',
         'assumptions': ['that token spans delimit the right text and that slicing src[span] shows it is the lexer / str indexing: not decided',
                         'rendering (show_line_context) and hash-map iteration order in resolve_symbol_name: not decided'],
     },
